@@ -74,6 +74,7 @@ type tcInst struct {
 	FoldErr    string
 	selfExit   bool // this client's Run returns by itself shortly after start (a client that fails)
 	startDirty bool // a write to the subtree was accepted between the state fetch and the subscription taking effect
+	startSelf  bool // ... and it was a batch "authored by the client itself" (empty origin / its id): nobody can have authored as a client that is not running yet
 }
 
 type mgrHarness struct {
@@ -97,6 +98,8 @@ type mgrHarness struct {
 type accWrite struct {
 	seq  int
 	node string
+	edge bool
+	pts  data.Points
 }
 
 type liveMark struct {
@@ -201,6 +204,9 @@ func (h *mgrHarness) construct(nc *nats.Conn, cfg TestNode) client.Client {
 		for _, aw := range h.accepted {
 			if aw.seq > q0 && (aw.node == rec.ID || h.tr.Ref.IsAncestorAny(rec.ID, aw.node)) {
 				rec.startDirty = true
+				if !aw.edge && !passesFilter(rec.ID, aw.node, aw.pts) {
+					rec.startSelf = true
+				}
 			}
 		}
 	}
@@ -570,11 +576,18 @@ func (h *mgrHarness) checkFolded() {
 		}
 		h.mu.Lock()
 		got := in.Cur
-		dirty := in.startDirty
+		dirty, self := in.startDirty, in.startSelf
 		h.mu.Unlock()
 		sortKids(&want)
 		sortKids(&got)
 		if !reflect.DeepEqual(want, got) {
+			if self {
+				// the property's premise does not hold for this instance: a batch marked as authored by the client
+				// was accepted while the client was still being started (the harness writes "as the client" without
+				// knowing whether one runs); the manager withholds it and the client cannot know it
+				s.Probe("not compared: a batch authored 'by the client' arrived while it was being started")
+				continue
+			}
 			clause := "folded-state"
 			if dirty {
 				clause = "folded-state-start-window"
@@ -602,16 +615,22 @@ func sortKids(t *TestNode) {
 	}
 }
 
+// Bounded liveness of Manager.Stop: the manager's own guards (5 s per client state, 5 s for the whole shutdown, up to
+// 1 s of draining per client subscription, one after the other) add up with the number of clients; the bound is far
+// above any of them and is not meant to mirror them.
+var stopBound = 60 * time.Second
+
 type mgrCfg struct {
-	Writers int
-	DelayPM int
-	Stop    bool
+	Writers   int
+	DelayPM   int
+	Stop      bool
+	EarlyStop bool
 }
 
 func runMgr(prop string) func(s *Sim) {
 	return func(s *Sim) {
 		wl := s.WL
-		cfg := mgrCfg{Writers: wl.Range(1, 3), Stop: true}
+		cfg := mgrCfg{Writers: wl.Range(1, 3), Stop: true, EarlyStop: wl.Chance(1, 4)}
 		if wl.Chance(1, 4) {
 			cfg.DelayPM = wl.Range(1, 15)
 		} else {
@@ -640,10 +659,13 @@ func runMgr(prop string) func(s *Sim) {
 			// start-window bookkeeping for the open finding on the manager's fetch-then-subscribe race
 			if w.Refused == "" {
 				h.mu.Lock()
-				h.accepted = append(h.accepted, accWrite{h.routeSeq, w.NodeID})
+				h.accepted = append(h.accepted, accWrite{h.routeSeq, w.NodeID, w.Edge, w.Pts})
 				for _, ins := range h.ins {
 					if ins.SubRouted == 0 && (w.NodeID == ins.ID || tr.Ref.IsAncestorAny(ins.ID, w.NodeID)) {
 						ins.startDirty = true
+						if !w.Edge && !passesFilter(ins.ID, w.NodeID, w.Pts) {
+							ins.startSelf = true
+						}
 					}
 				}
 				h.mu.Unlock()
@@ -782,10 +804,16 @@ func runMgr(prop string) func(s *Sim) {
 				var pts data.Points
 				for i := 0; i < n; i++ {
 					p := data.Point{Time: nextT(), Origin: origin}
+					if i > 0 && wl.Chance(1, 3) {
+						// an author that stamps its whole batch with one "now": the same identity may then appear twice with
+						// equal time stamps and different content (non-decreasing, as the quantifier allows); the later entry
+						// is what the store keeps and what a client folding in order ends up with
+						p.Time = pts[i-1].Time
+					}
 					if wl.Chance(1, 2) {
-						p.Type, p.Text = "description", fmt.Sprintf("v%d", nOps)
+						p.Type, p.Text = "description", fmt.Sprintf("v%d.%d", nOps, i)
 					} else {
-						p.Type, p.Value = "value", float64(nOps)+0.5
+						p.Type, p.Value = "value", float64(nOps)+0.5+float64(i)/8
 					}
 					if wl.Chance(1, 8) {
 						p.Tombstone = 1
@@ -949,15 +977,78 @@ func runMgr(prop string) func(s *Sim) {
 			startMgr()
 			mgrStarted = true
 		}
+		// In one run out of four the manager is also stopped in the middle of the workload, at an instant the scheduler
+		// picks (scans, constructors and creation notices may be in progress): Run must return within 60 simulated
+		// seconds and leave no client running.  A fresh manager takes over afterwards.
+		earlyStop := 0 // 0: not planned, 1: planned, 2: Stop called, 3: Run has returned
+		if cfg.EarlyStop {
+			earlyStop = 1
+		}
+		var stopDeadline time.Time
+		stopReturned := func() bool {
+			select {
+			case <-h.runDone:
+			default:
+				return false
+			}
+			h.mu.Lock()
+			defer h.mu.Unlock()
+			for _, ins := range h.ins {
+				if ins.RunEnter != 0 && ins.RunExit == 0 {
+					s.failLocked("C07", "stop-client", "Manager.Run returned but client #%d (%s) is still running (stop requested: %v)", ins.N, ins.Key, ins.Stops > 0)
+					break
+				}
+			}
+			return true
+		}
 		s.FaultEvents = func() []SimEvent {
-			if !mgrStarted {
+			if !mgrStarted && earlyStop != 2 {
 				return []SimEvent{{Key: "start manager", Do: func() { startMgr(); mgrStarted = true }}}
+			}
+			if mgrStarted && earlyStop == 1 && !s.workloadDone() {
+				return []SimEvent{{Key: "fault stop manager", Do: func() {
+					earlyStop = 2
+					s.Fault("manager-stop-under-load")
+					stopDeadline = time.Now().Add(stopBound)
+					h.m.Stop(nil)
+				}}}
 			}
 			return nil
 		}
 		s.OnQuiescent = append(s.OnQuiescent, func() { tr.CheckState(false) })
-		s.AfterStep = append(s.AfterStep, func() { tr.Process(); h.checkSafety() })
+		s.AfterStep = append(s.AfterStep, func() {
+			tr.Process()
+			h.checkSafety()
+			if earlyStop == 2 {
+				if stopReturned() {
+					earlyStop, mgrStarted = 3, false
+				} else if !time.Now().Before(stopDeadline) {
+					s.Fail("C07", "stop", "Manager.Run did not return within 60 simulated seconds of Manager.Stop (stopped while the workload was running)")
+				}
+			}
+		})
 		s.Run()
+		if s.Failed() {
+			return
+		}
+		for earlyStop == 2 {
+			if s.Failed() {
+				return
+			}
+			s.quiesce()
+			if stopReturned() {
+				earlyStop, mgrStarted = 3, false
+				break
+			}
+			if s.StepOnce(false) {
+				continue
+			}
+			if !time.Now().Before(stopDeadline) {
+				s.Fail("C07", "stop", "Manager.Run did not return within 60 simulated seconds of Manager.Stop (stopped while the workload was running)")
+				return
+			}
+			s.sleepOrWake(time.Until(stopDeadline))
+		}
 		if s.Failed() {
 			return
 		}
@@ -985,7 +1076,7 @@ func runMgr(prop string) func(s *Sim) {
 		}
 		// stopping the manager stops every client and returns
 		h.m.Stop(nil)
-		deadline := time.Now().Add(10 * time.Second)
+		deadline := time.Now().Add(stopBound)
 		stopped := false
 		for !stopped {
 			s.quiesce()
@@ -998,13 +1089,13 @@ func runMgr(prop string) func(s *Sim) {
 			if s.StepOnce(false) {
 				continue
 			}
-			if time.Now().After(deadline) {
+			if !time.Now().Before(deadline) {
 				break
 			}
 			s.sleepOrWake(time.Until(deadline))
 		}
 		if !stopped {
-			s.Fail("C07", "stop", "Manager.Run did not return within 10 simulated seconds of Manager.Stop")
+			s.Fail("C07", "stop", "Manager.Run did not return within 60 simulated seconds of Manager.Stop")
 			return
 		}
 		h.mu.Lock()
